@@ -229,25 +229,37 @@ func dispatchConnection(conn net.Conn, sta *State) {
 	}
 
 	var user *ActiveUser
-	if sta.IsBypass(ci.UID) {
-		user, err = sta.Panel.GetBypassUser(ci.UID)
-	} else {
-		user, err = sta.Panel.GetUser(ci.UID)
-	}
-	if err != nil {
-		log.WithFields(log.Fields{
-			"UID":        b64(ci.UID),
-			"remoteAddr": conn.RemoteAddr(),
-			"error":      err,
-		}).Warn("+1 unauthorised UID")
-		goWeb()
-		return
-	}
+	var sesh *mux.Session
+	var existing bool
+	for {
+		if sta.IsBypass(ci.UID) {
+			user, err = sta.Panel.GetBypassUser(ci.UID)
+		} else {
+			user, err = sta.Panel.GetUser(ci.UID)
+		}
+		if err != nil {
+			log.WithFields(log.Fields{
+				"UID":        b64(ci.UID),
+				"remoteAddr": conn.RemoteAddr(),
+				"error":      err,
+			}).Warn("+1 unauthorised UID")
+			goWeb()
+			return
+		}
 
-	sesh, existing, err := user.GetSession(ci.SessionId, seshConfig)
+		sesh, existing, err = user.GetSession(ci.SessionId, seshConfig)
+		if err == ErrUserTerminated {
+			// the user's last session was closed after we looked the record up and the
+			// record is being forgotten: resolve the user again
+			continue
+		}
+		break
+	}
 	if err != nil {
 		user.CloseSession(ci.SessionId, "")
 		log.Error(err)
+		// the peer is waiting for our reply: do not leave it hanging
+		conn.Close()
 		return
 	}
 
